@@ -240,6 +240,17 @@ CLAIMED = {
              "of expression evaluation are covered by execution only. Known finding: subprogram locals share their bytes (golden-pinned).",
         technique="Coq proof by induction over declaration lists + layout comparison + execution of real generated programs in a kernel-validated ISA model",
         ref="7/C04"),
+    "C08": dict(
+        text="Theorems C08_one_slot_per_name (for ANY class hierarchy: one slot per variable name, sized by the declaration attribute lookup finds), "
+             "C08_slots_disjoint (ANY collection: pairwise disjoint slots), C08_value_roundtrip (native pack / unpack on one side, load / store on the other); "
+             "C08_pinned_refuted documents the repaired defect. Tie: random declaration sets over a base and a derived program class with redefinitions, "
+             "subprogram class pairs with 1-2 instances, scalar, fixed-point and multi-element formats: the REAL positions and map size must equal the model's; "
+             "values written through the real Python descriptors are read by the real generated program (kernel-validated Coq ISA model) and values the program "
+             "stores are read back through the descriptors (decimals for x, tuples for multi-element formats); per-CPU maps: one value per CPU on the Python side.",
+        note=TB + "Partial: the per-CPU case exercises only the Python side (PerCPUVar indexing over a hand-made per-CPU blob); a map declared in a base class of "
+             "the program is not initialised by EBPF.__init__ (only the program class's own dict is searched) - the maps are declared in the program class.",
+        technique="Coq proof over declaration lists + layout comparison + values passed both ways between real descriptors and the real generated program",
+        ref="7/C08"),
 }
 
 REASONS_NOT_YET = "no check built yet in this round (planned, see DESIGN.md section 7); nothing is claimed for it"
